@@ -124,7 +124,7 @@ def run(pid, tier, ev=None, vd=None, finish=True, want_label=None):
                     n = len(zlib.decompress(blobs[s[3]]))
                     for cut in list(range(0, n, 64 if tier == "thorough" else 256)) + [n - 1]:
                         jobs.append((s, blobs[s[3]], "trunc", cut))
-                elif kind == "stale_bak":
+                elif kind in ("stale_bak", "stale_other_order"):
                     others = [b for e2, b in blobs.items() if e2 != s[3]]
                     for b in rng.sample(others, min(3, len(others))):
                         jobs.append((s, blobs[s[3]], kind, b))
